@@ -36,7 +36,9 @@ def extra_builds(tier):
 def bounds(tier):
     return {"rounds": [8, 12, 20], "key_patterns": 7 if tier == "thorough" else 3, "nonce_patterns": 5 if tier == "thorough" else 2,
             "data_lengths": list(lens(tier)), "start_blocks_32": [0, 1, 2 ** 32 - 2, 2 ** 32 - 1],
-            "start_blocks_64": "low in {0,2^32-2,2^32-1} x high in {0,1,2^32-1}"}
+            "start_blocks_64": "low in {0,2^32-2,2^32-1} x high in {0,1,2^32-1}",
+            "every_length": "0..=%d at cursor offsets 0, 1, 61" % (520 if tier == "thorough" else 200), "seek_histories": "seek;seek and seek;process(l);seek over 10 x 10 positions",
+            "counter_bits": "start blocks 2^k-1, 2^k-2 for every k"}
 
 
 def validate_models(tier):
